@@ -259,4 +259,420 @@ theorem parse_rend (P : Prec) (t : T) (h : wf false t = true) (fuel : Nat) (hf :
   simpa using this
 
 
+
+/-! ## token length bounds the fuel; `render` is the concrete syntax of `toT` -/
+
+theorem wrapS_length (s : List Tok) : s.length ≤ (wrapS s).length := by
+  unfold wrapS
+  split <;> simp <;> omega
+
+theorem size_le_length (t : T) : ∀ b, t.size ≤ (rend b t).length := by
+  induction t with
+  | col c => intro b; cases b <;> simp [rend, T.size]
+  | num n => intro b; cases b <;> simp [rend, T.size]
+  | null => intro b; cases b <;> simp [rend, T.size]
+  | bin o l r ihl ihr =>
+    intro b
+    have h1 := wrapS_length (rend false l)
+    have h2 := wrapS_length (rend false r)
+    have := ihl false; have := ihr false
+    cases b <;> simp [rend, T.size] <;> omega
+  | un p t ih =>
+    intro b
+    have := ih false
+    cases b <;> simp [rend, T.size] <;> omega
+  | isin x l ihx ihl =>
+    intro b
+    have h1 := wrapS_length (rend false x)
+    have := ihx false; have := ihl false
+    cases b <;> simp [rend, T.size] <;> omega
+  | call f a ih =>
+    intro b
+    have := ih false
+    cases b <;> simp [rend, T.size] <;> omega
+  | nil => intro b; cases b <;> simp [rend, T.size]
+  | cons h t ihh iht =>
+    intro b
+    have := ihh false; have := iht true
+    cases b <;> simp [rend, T.size] <;> omega
+
+theorem parse_rend_top (P : Prec) (t : T) (h : wf false t = true) :
+    parse P (rend false t) = some t := by
+  unfold parse
+  rw [parse_rend P t h _ (by have := size_le_length t false; omega)]
+
+/-- `render` (the mirror of `__sqlrepr__`) is the concrete syntax of `toT` -/
+theorem render_eq (d : String) (n : Node) : ∀ b, render d b n = rend b (toT d n) := by
+  induction n with
+  | field c => intro b; cases b <;> simp [render, toT, rend]
+  | int i => intro b; cases b <;> simp [render, toT] <;> split <;> simp [rend]
+  | none => intro b; cases b <;> simp [render, toT, rend]
+  | sqlop o l r ihl ihr => intro b; cases b <;> simp [render, toT, rend, renderOp, ihl, ihr]
+  | sqlin x l ihx ihl => intro b; cases b <;> simp [render, toT, rend, ihx, ihl]
+  | modulo l r ihl ihr =>
+    intro b
+    cases b <;> simp only [render, toT] <;> split <;> simp [rend, renderOp, ihl, ihr]
+  | «prefix» p x ih => intro b; cases b <;> simp [render, toT, rend, ih]
+  | lnil => intro b; cases b <;> simp [render, toT, rend]
+  | lcons h t ihh iht => intro b; cases b <;> simp [render, toT, rend, ihh, iht]
+
+
+
+/-! ### shape of what the constructors build -/
+
+theorem wf_applyOv (d : String) (ov : OvBin) (a b : Node) :
+    wf false (toT d (applyOv ov a b)) = (wf false (toT d a) && wf false (toT d b)) := by
+  unfold applyOv
+  split <;> simp [toT, wf, Bool.and_comm]
+
+theorem wf_int (d : String) (i : Int) : wf false (toT d (Node.int i)) = true := by
+  simp only [toT]; split <;> simp [wf]
+
+theorem wf_buildN (d : String) (e : NumE) : wf false (toT d (buildN e)) = true := by
+  induction e with
+  | col c => simp [buildN, toT, wf]
+  | const i => simp only [buildN]; exact wf_int d i
+  | ar o l r ihl ihr =>
+    simp only [buildN]
+    split
+    · simp only [toT]; split <;> simp [wf, ihl, ihr]
+    · split <;> simp [wf_applyOv, ihl, ihr]
+  | neg x ih => simp [buildN, toT, wf, ih]
+  | pos x ih => simp [buildN, toT, wf, ih]
+
+theorem wf_buildItems (d : String) (items : List (Option NumE)) :
+    wf true (toT d (buildItems items)) = true := by
+  induction items with
+  | nil => simp [buildItems, toT, wf]
+  | cons h t ih => cases h <;> simp [buildItems, toT, wf, ih, wf_buildN]
+
+theorem wf_noneRule (d : String) (rule : NoneRule) (ov : OvBin) (a : Node) (h : wf false (toT d a) = true) :
+    wf false (toT d (noneRule rule ov a)) = true := by
+  cases rule <;> simp [noneRule, toT, wf, wf_applyOv, h]
+
+theorem wf_buildB (d : String) (e : BoolE) : wf false (toT d (buildB e)) = true := by
+  induction e with
+  | cmp o l r => simp only [buildB]; split <;> simp [wf_applyOv, wf_buildN]
+  | andOp l r ihl ihr => simp [buildB, wf_applyOv, ihl, ihr]
+  | orOp l r ihl ihr => simp [buildB, wf_applyOv, ihl, ihr]
+  | andFn l r ihl ihr => simp [buildB, toT, wf, ihl, ihr]
+  | orFn l r ihl ihr => simp [buildB, toT, wf, ihl, ihr]
+  | notOp x ih => simp [buildB, toT, wf, ih]
+  | notFn x ih => simp [buildB, toT, wf, ih]
+  | isin x items => simp [buildB, toT, wf, wf_buildN, wf_buildItems]
+  | notin x items => simp only [buildB]; split <;> simp [toT, wf, wf_buildN, wf_buildItems]
+  | isnull x => simp [buildB, toT, wf, wf_buildN]
+  | isnotnull x => simp [buildB, toT, wf, wf_buildN]
+  | eqNone x => simp only [buildB]; split <;> exact wf_noneRule _ _ _ _ (wf_buildN d x)
+  | neNone x => simp only [buildB]; split <;> exact wf_noneRule _ _ _ _ (wf_buildN d x)
+
+
+/-! ## the value of the parsed text is the three-valued value of the source tree -/
+
+theorem truth_b2i (x : Option Bool) : truth (x.map b2i) = x := by
+  cases x with
+  | none => rfl
+  | some b => cases b <;> simp [truth, b2i]
+
+theorem in3_eq_inSpec (x : Option Int) (ys : List (Option Int)) : in3 x ys = inSpec x ys := by
+  induction ys with
+  | nil => simp [in3, inSpec]
+  | cons y ys ih =>
+    simp only [in3, ih]
+    cases x with
+    | none =>
+      cases ys <;> simp [inSpec, eq3, or3]
+    | some a =>
+      cases y with
+      | none =>
+        cases ys with
+        | nil => simp [inSpec, eq3, or3]
+        | cons z zs =>
+          simp only [inSpec, eq3, List.isEmpty_cons, Bool.false_eq_true, if_false, List.contains_cons]
+          split <;> simp_all [or3]
+      | some b =>
+        cases ys with
+        | nil =>
+          by_cases hab : a = b
+          · simp [inSpec, eq3, or3, hab]
+          · have : (a == b) = false := by simp [hab]
+            simp [inSpec, eq3, or3, hab, this]
+        | cons z zs =>
+          simp only [inSpec, eq3, List.isEmpty_cons, Bool.false_eq_true, if_false, List.contains_cons]
+          by_cases hab : a = b
+          · simp [hab, or3]
+          · have : (a == b) = false := by simp [hab]
+            simp only [this]
+            have h2 : (some a == some b) = false := by simp [hab]
+            simp only [h2, Bool.false_or]
+            have h3 : ((none : Option Int) == some b) = false := by simp
+            simp only [h3, Bool.false_or]
+            split
+            · simp [or3]
+            · split <;> simp [or3]
+
+theorem ev_int (r : Row) (d : String) (i : Int) : ev r (toT d (Node.int i)) = .v (some i) := by
+  simp only [toT]
+  split
+  · simp only [ev, preSem, Option.map]
+    congr 2; omega
+  · simp only [ev]
+    congr 2; omega
+
+theorem ev_applyOv (r : Row) (d : String) (ov : OvBin) (a b : Node) (x y : Option Int)
+    (ha : ev r (toT d a) = .v x) (hb : ev r (toT d b) = .v y) :
+    ev r (toT d (applyOv ov a b)) = .v (if ov.swapped then binSem ov.op y x else binSem ov.op x y) := by
+  unfold applyOv
+  split <;> simp [toT, ev, ha, hb]
+
+theorem binSem_ar (o : ArOp) (x y : Option Int) :
+    binSem (arOv o).op x y = arSem o x y ∧ (arOv o).swapped = false ∧
+    binSem (arRov o).op x y = arSem o x y ∧ (arRov o).swapped = true := by
+  cases o <;> cases x <;> cases y <;>
+    simp [arOv, arRov, Extracted.add, Extracted.sub, Extracted.mul, Extracted.div, Extracted.radd, Extracted.rsub,
+      Extracted.rmul, Extracted.rdiv, Extracted.moduloOp, binSem, lift2, arSem]
+
+theorem ev_buildN (r : Row) (d : String) (e : NumE) : ev r (toT d (buildN e)) = .v (evalN r e) := by
+  induction e with
+  | col c => simp [buildN, toT, ev, evalN]
+  | const i => simp only [buildN, evalN]; exact ev_int r d i
+  | ar o l x ihl ihx =>
+    simp only [buildN, evalN]
+    split
+    · rename_i ho; subst ho
+      have hm := (binSem_ar .mod (evalN r l) (evalN r x)).1
+      simp only [arOv] at hm
+      simp only [toT]
+      split
+      · simp [ev, ihl, ihx, hm]
+      · simp [ev, ihl, ihx]
+        simpa [Extracted.moduloOp] using hm
+    · have h := binSem_ar o
+      split
+      · rw [ev_applyOv r d _ _ _ _ _ ihx ihl]
+        simp [(h (evalN r l) (evalN r x)).2.2]
+      · rw [ev_applyOv r d _ _ _ _ _ ihl ihx]
+        simp [(h (evalN r l) (evalN r x)).1, (h (evalN r l) (evalN r x)).2.1]
+  | neg x ih => simp [buildN, toT, ev, evalN, ih, Extracted.negOp, preSem]
+  | pos x ih => simp [buildN, toT, ev, evalN, ih, Extracted.posOp, preSem]
+
+
+theorem ev_buildItems (r : Row) (d : String) (items : List (Option NumE)) :
+    ev r (toT d (buildItems items)) = .l (items.map (evalItem r)) := by
+  induction items with
+  | nil => simp [buildItems, toT, ev]
+  | cons h t ih => cases h <;> simp [buildItems, toT, ev, ih, ev_buildN, evalItem]
+
+theorem binSem_cmp (f : Bool) (o : CmpOp) (x y : Option Int) :
+    binSem (cmpOv f o).op x y = (cmpSem o x y).map b2i ∧ (cmpOv f o).swapped = false ∧
+    binSem (cmpOv f o.flip).op y x = (cmpSem o x y).map b2i := by
+  cases o <;> cases f <;> cases x <;> cases y <;>
+    simp [cmpOv, CmpOp.flip, Extracted.lt, Extracted.le, Extracted.gt, Extracted.ge, Extracted.exprEq, Extracted.exprNe,
+      Extracted.fieldEq, Extracted.fieldNe, binSem, lift2, cmpSem, Bool.beq_comm, bne]
+
+theorem binSem_and (x y : Option Bool) : binSem .and (x.map b2i) (y.map b2i) = (and3 x y).map b2i := by
+  simp [binSem, truth_b2i]
+
+theorem binSem_or (x y : Option Bool) : binSem .or (x.map b2i) (y.map b2i) = (or3 x y).map b2i := by
+  simp [binSem, truth_b2i]
+
+theorem preSem_not (x : Option Bool) : preSem .not (x.map b2i) = (not3 x).map b2i := by
+  simp [preSem, truth_b2i]
+
+theorem binSem_is_none (x : Option Int) : binSem .is x none = some (b2i x.isNone) := by
+  cases x <;> simp [binSem]
+
+theorem binSem_isNot_none (x : Option Int) : binSem .isNot x none = some (b2i x.isSome) := by
+  cases x <;> simp [binSem, bne]
+
+theorem ev_buildB (r : Row) (d : String) (e : BoolE) :
+    ev r (toT d (buildB e)) = .v ((evalB r e).map b2i) := by
+  induction e with
+  | cmp o l x =>
+    simp only [buildB, evalB]
+    have h := binSem_cmp
+    split
+    · rw [ev_applyOv r d _ _ _ _ _ (ev_buildN r d x) (ev_buildN r d l)]
+      simp [(h _ o.flip (evalN r x) (evalN r l)).2.1, (h _ o (evalN r l) (evalN r x)).2.2]
+    · rw [ev_applyOv r d _ _ _ _ _ (ev_buildN r d l) (ev_buildN r d x)]
+      simp [(h _ o (evalN r l) (evalN r x)).2.1, (h _ o (evalN r l) (evalN r x)).1]
+  | andOp l x ihl ihx =>
+    simp only [buildB, evalB]
+    rw [ev_applyOv r d _ _ _ _ _ ihl ihx]
+    simp [Extracted.andOp, binSem_and]
+  | orOp l x ihl ihx =>
+    simp only [buildB, evalB]
+    rw [ev_applyOv r d _ _ _ _ _ ihl ihx]
+    simp [Extracted.orOp, binSem_or]
+  | andFn l x ihl ihx => simp [buildB, evalB, toT, ev, ihl, ihx, Extracted.andFn, binSem_and]
+  | orFn l x ihl ihx => simp [buildB, evalB, toT, ev, ihl, ihx, Extracted.orFn, binSem_or]
+  | notOp x ih => simp [buildB, evalB, toT, ev, ih, Extracted.invertOp, preSem_not]
+  | notFn x ih => simp [buildB, evalB, toT, ev, ih, Extracted.notFn, preSem_not]
+  | isin x items => simp [buildB, evalB, toT, ev, ev_buildN, ev_buildItems, in3_eq_inSpec]
+  | notin x items =>
+    simp [buildB, evalB, toT, ev, ev_buildN, ev_buildItems, in3_eq_inSpec, Extracted.notinNegates, Extracted.notFn, preSem_not]
+  | isnull x => simp [buildB, evalB, toT, ev, ev_buildN, Extracted.isnullOp, binSem_is_none]
+  | isnotnull x => simp [buildB, evalB, toT, ev, ev_buildN, Extracted.isnotnullOp, binSem_isNot_none]
+  | eqNone x =>
+    simp only [buildB, evalB]
+    split <;> simp [noneRule, Extracted.fieldEqNone, Extracted.exprEqNone, toT, ev, ev_buildN, Extracted.isnullOp, binSem_is_none]
+  | neNone x =>
+    simp only [buildB, evalB]
+    split <;> simp [noneRule, Extracted.fieldNeNone, Extracted.exprNeNone, toT, ev, ev_buildN, Extracted.isnotnullOp, binSem_isNot_none]
+
+
+/-! ## no (in)equality operator is followed by NULL -/
+
+def T.isNull : T → Bool
+  | .null => true
+  | _ => false
+
+/-- some (in)equality comparison in the syntax tree has the bare `NULL` as its right operand -/
+def eqNullT : T → Bool
+  | .bin o l r => eqNullT l || eqNullT r || ((Tok.op o).isEqLike && r.isNull)
+  | .un _ t => eqNullT t
+  | .isin x l => eqNullT x || eqNullT l
+  | .call _ a => eqNullT a
+  | .cons h t => eqNullT h || eqNullT t
+  | _ => false
+
+theorem hasEqNull_cons (t : Tok) (ts : List Tok) :
+    hasEqNull (t :: ts) = ((t.isEqLike && ts.head? == some Tok.null) || hasEqNull ts) := rfl
+
+theorem hasEqNull_wrap (s : List Tok) (X : Bool) (h : ∀ k, hasEqNull (s ++ k) = (X || hasEqNull k)) :
+    ∀ k, hasEqNull (wrapS s ++ k) = (X || hasEqNull k) := by
+  intro k
+  unfold wrapS
+  split
+  · exact h k
+  · exact h k
+  · simp only [List.cons_append, List.append_assoc, hasEqNull_cons, Tok.isEqLike, Bool.false_and, Bool.false_or, h]
+    simp [hasEqNull_cons, Tok.isEqLike]
+
+theorem head_wrap (r : T) (k : List Tok) :
+    ((wrapS (rend false r) ++ k).head? == some Tok.null) = r.isNull := by
+  cases r <;> simp [rend, wrapS, T.isNull]
+
+theorem hasEqNull_rend (t : T) : ∀ b k, hasEqNull (rend b t ++ k) = (eqNullT t || hasEqNull k) := by
+  induction t with
+  | col c => intro b k; cases b <;> simp [rend, eqNullT, hasEqNull_cons, Tok.isEqLike]
+  | num n => intro b k; cases b <;> simp [rend, eqNullT, hasEqNull_cons, Tok.isEqLike]
+  | null => intro b k; cases b <;> simp [rend, eqNullT, hasEqNull_cons, Tok.isEqLike]
+  | nil => intro b k; cases b <;> simp [rend, eqNullT, hasEqNull_cons, Tok.isEqLike]
+  | bin o l r ihl ihr =>
+    intro b k
+    have hl := hasEqNull_wrap _ _ (ihl false)
+    have hr := hasEqNull_wrap _ _ (ihr false)
+    have hh := head_wrap r (Tok.rp :: k)
+    cases b <;>
+    · simp only [rend, List.cons_append, List.append_assoc, List.nil_append, hasEqNull_cons, hl, hr, hh, eqNullT]
+      simp [Tok.isEqLike, Bool.or_assoc, Bool.or_comm, Bool.or_left_comm]
+  | un p t ih =>
+    intro b k
+    cases b <;> simp [rend, eqNullT, hasEqNull_cons, Tok.isEqLike, ih]
+  | isin x l ihx ihl =>
+    intro b k
+    have hx := hasEqNull_wrap _ _ (ihx false)
+    cases b <;>
+    · simp only [rend, List.cons_append, List.append_assoc, List.nil_append, hasEqNull_cons, hx, ihl, eqNullT]
+      simp [Tok.isEqLike, Bool.or_assoc]
+  | call f a ih =>
+    intro b k
+    cases b <;> simp [rend, eqNullT, hasEqNull_cons, Tok.isEqLike, ih]
+  | cons h t ihh iht =>
+    intro b k
+    cases b <;> simp [rend, eqNullT, hasEqNull_cons, Tok.isEqLike, ihh, iht, Bool.or_assoc]
+
+
+theorem isNull_applyOv (d : String) (ov : OvBin) (a b : Node) : (toT d (applyOv ov a b)).isNull = false := by
+  unfold applyOv; split <;> simp [toT, T.isNull]
+
+theorem isNull_buildN (d : String) (e : NumE) : (toT d (buildN e)).isNull = false := by
+  cases e with
+  | col c => simp [buildN, toT, T.isNull]
+  | const i => simp only [buildN, toT]; split <;> simp [T.isNull]
+  | ar o l r =>
+    simp only [buildN]
+    split
+    · simp only [toT]; split <;> simp [T.isNull]
+    · split <;> exact isNull_applyOv _ _ _ _
+  | neg x => simp [buildN, toT, T.isNull]
+  | pos x => simp [buildN, toT, T.isNull]
+
+theorem eqNullT_applyOv (d : String) (ov : OvBin) (a b : Node)
+    (ha : (toT d a).isNull = false) (hb : (toT d b).isNull = false) :
+    eqNullT (toT d (applyOv ov a b)) = (eqNullT (toT d a) || eqNullT (toT d b)) := by
+  unfold applyOv; split <;> simp [toT, eqNullT, ha, hb, Bool.or_comm]
+
+theorem eqNullT_int (d : String) (i : Int) : eqNullT (toT d (Node.int i)) = false := by
+  simp only [toT]; split <;> simp [eqNullT]
+
+theorem eqNullT_buildN (d : String) (e : NumE) : eqNullT (toT d (buildN e)) = false := by
+  induction e with
+  | col c => simp [buildN, toT, eqNullT]
+  | const i => simp only [buildN]; exact eqNullT_int d i
+  | ar o l r ihl ihr =>
+    simp only [buildN]
+    split
+    · simp only [toT]; split <;> simp [eqNullT, ihl, ihr, isNull_buildN]
+    · split <;> simp [eqNullT_applyOv, isNull_buildN, ihl, ihr]
+  | neg x ih => simp [buildN, toT, eqNullT, ih]
+  | pos x ih => simp [buildN, toT, eqNullT, ih]
+
+theorem eqNullT_buildItems (d : String) (items : List (Option NumE)) :
+    eqNullT (toT d (buildItems items)) = false := by
+  induction items with
+  | nil => simp [buildItems, toT, eqNullT]
+  | cons h t ih => cases h <;> simp [buildItems, toT, eqNullT, ih, eqNullT_buildN]
+
+theorem isNull_noneRule (d : String) (rule : NoneRule) (ov : OvBin) (a : Node) :
+    (toT d (noneRule rule ov a)).isNull = false := by
+  cases rule
+  · simp [noneRule, toT, T.isNull]
+  · simp [noneRule, toT, T.isNull]
+  · exact isNull_applyOv _ _ _ _
+
+theorem isNull_buildB (d : String) (e : BoolE) : (toT d (buildB e)).isNull = false := by
+  cases e with
+  | cmp o l r => simp only [buildB]; split <;> exact isNull_applyOv _ _ _ _
+  | andOp l r => exact isNull_applyOv _ _ _ _
+  | orOp l r => exact isNull_applyOv _ _ _ _
+  | andFn l r => simp [buildB, toT, T.isNull]
+  | orFn l r => simp [buildB, toT, T.isNull]
+  | notOp x => simp [buildB, toT, T.isNull]
+  | notFn x => simp [buildB, toT, T.isNull]
+  | isin x items => simp [buildB, toT, T.isNull]
+  | notin x items => simp only [buildB]; split <;> simp [toT, T.isNull]
+  | isnull x => simp [buildB, toT, T.isNull]
+  | isnotnull x => simp [buildB, toT, T.isNull]
+  | eqNone x => simp only [buildB]; split <;> exact isNull_noneRule _ _ _ _
+  | neNone x => simp only [buildB]; split <;> exact isNull_noneRule _ _ _ _
+
+theorem eqNullT_noneRule (d : String) (x : NumE) :
+    eqNullT (toT d (noneRule Extracted.fieldEqNone Extracted.fieldEq (buildN x))) = false ∧
+    eqNullT (toT d (noneRule Extracted.exprEqNone Extracted.exprEq (buildN x))) = false ∧
+    eqNullT (toT d (noneRule Extracted.fieldNeNone Extracted.fieldNe (buildN x))) = false ∧
+    eqNullT (toT d (noneRule Extracted.exprNeNone Extracted.exprNe (buildN x))) = false := by
+  simp [noneRule, Extracted.fieldEqNone, Extracted.exprEqNone, Extracted.fieldNeNone, Extracted.exprNeNone, toT, eqNullT,
+    eqNullT_buildN, Extracted.isnullOp, Extracted.isnotnullOp, Tok.isEqLike, BinOp.spell]
+
+theorem eqNullT_buildB (d : String) (e : BoolE) : eqNullT (toT d (buildB e)) = false := by
+  induction e with
+  | cmp o l r =>
+    simp only [buildB]
+    split <;> simp [eqNullT_applyOv, isNull_buildN, eqNullT_buildN]
+  | andOp l r ihl ihr => simp [buildB, eqNullT_applyOv, isNull_buildB, ihl, ihr]
+  | orOp l r ihl ihr => simp [buildB, eqNullT_applyOv, isNull_buildB, ihl, ihr]
+  | andFn l r ihl ihr => simp [buildB, toT, eqNullT, isNull_buildB, ihl, ihr]
+  | orFn l r ihl ihr => simp [buildB, toT, eqNullT, isNull_buildB, ihl, ihr]
+  | notOp x ih => simp [buildB, toT, eqNullT, ih]
+  | notFn x ih => simp [buildB, toT, eqNullT, ih]
+  | isin x items => simp [buildB, toT, eqNullT, eqNullT_buildN, eqNullT_buildItems]
+  | notin x items => simp only [buildB]; split <;> simp [toT, eqNullT, eqNullT_buildN, eqNullT_buildItems]
+  | isnull x => simp [buildB, toT, eqNullT, eqNullT_buildN, Extracted.isnullOp, Tok.isEqLike, BinOp.spell]
+  | isnotnull x => simp [buildB, toT, eqNullT, eqNullT_buildN, Extracted.isnotnullOp, Tok.isEqLike, BinOp.spell]
+  | eqNone x => simp only [buildB]; split <;> simp [eqNullT_noneRule]
+  | neNone x => simp only [buildB]; split <;> simp [eqNullT_noneRule]
+
+
 end SqlObjVerif.Expr
